@@ -73,6 +73,37 @@ theorem heartbeat_echo (env : Env) (req : Msg) (h1 : env.reachLimit = false) (h2
     serveOne env req = [.write { req with hdr := Header.setMessageType req.hdr C.MessageType_Response }, .next] := by
   simp [serveOne, h1, h2, hh]
 
+/-! ### a whole connection -/
+
+theorem admitted_no_close (env : Env) (req : Msg) (ha : Admitted env req) (hh : Header.isHeartbeat req.hdr = false) :
+    Action.closeConn ∉ serveOne env req := by
+  rw [(one_response env req ha hh).2.2]
+  obtain ⟨res, hd | hd⟩ := dispatch_shape env req <;> rw [hd] <;> unfold reply <;> split <;> simp
+
+/-- **every request of a connection is answered exactly once**: for any sequence of admitted requests on
+    one connection, the frames written are as many as the two-way requests among them (none for the
+    one-way ones), and no request runs a handler more than once -/
+theorem conn_one_response_each (reqs : List (Env × Msg))
+    (h : ∀ e ∈ reqs, Admitted e.1 e.2 ∧ Header.isHeartbeat e.2.hdr = false) :
+    (writes (serveConn reqs)).length = (reqs.filter (fun e => !Header.isOneway e.2.hdr)).length
+    ∧ invokes (serveConn reqs) ≤ reqs.length := by
+  induction reqs with
+  | nil => simp [serveConn, writes, invokes]
+  | cons e es ih =>
+    obtain ⟨env, req⟩ := e
+    obtain ⟨ha, hh⟩ := h (env, req) (by simp)
+    have hnc := admitted_no_close env req ha hh
+    obtain ⟨h1, h2, _⟩ := one_response env req ha hh
+    obtain ⟨i1, i2⟩ := ih (fun e he => h e (by simp [he]))
+    simp only [serveConn, hnc, if_false]
+    constructor
+    · simp only [writes, List.filterMap_append, List.length_append] at h1 i1 ⊢
+      rw [h1, i1]
+      simp only [List.filter_cons]
+      cases Header.isOneway req.hdr <;> simp <;> omega
+    · simp only [invokes, List.filter_append, List.length_append, List.length_cons] at h2 i2 ⊢
+      omega
+
 /-! ### stamping -/
 
 theorem compressType_lt (h : Header) : Header.compressType h < 8#8 := by
